@@ -52,4 +52,5 @@ def jobs(tier):
     out += mk('C03', 'deep4/ff', S.deep4('ff'))
     out += mk('C03', 'deep4/ff/wild_raise', S.deep4('ff', wild_raise=True))
     out += matrix_jobs('C03', 'm3', tier)
+    out += matrix_jobs('C03', 'm4', tier)
     return flat(out)
